@@ -244,7 +244,9 @@ def parse_ig(filepath):
         clean_line, comment = split_comments(line)
         comments.append(comment)
         if clean_line:
-            if clean_line[-1] == '1' or clean_line[-1] == '2':
+            # the first non-comment line is the title; it may end in any
+            # character and never terminates the sequence
+            if clean_lines and (clean_line[-1] == '1' or clean_line[-1] == '2'):
                 ter_char = clean_line[-1]
                 clean_line = clean_line[:-1]
                 clean_lines.append(clean_line)
